@@ -327,4 +327,117 @@ theorem misc_exact {na d : ℕ} (S : List Idx) (hnd : S.Nodup) (hlen : ∀ s ∈
     rw [term_value_poly hN f x hx i hi]
     rfl
 
+
+/-! ### the surrogate interpolates its training data (single fidelity or not): unit pulses + linearity -/
+
+/-- generic form of the combination step: per-dimension level operators `u k n` that equal `c k` from the level of `l` on;
+    the `na` leading index entries do not enter the operators -/
+theorem comb_offset {na d : ℕ} (S : List Idx) (hnd : S.Nodup) (hlen : ∀ s ∈ S, s.length = na + d)
+    (hdown : ∀ s ∈ S, ∀ j, Idx.le j s = true → j ∈ S) (u : ℕ → ℕ → ℚ) (c : ℕ → ℚ) (l : Idx) (hl : l ∈ S)
+    (hstable : ∀ k, k < d → ∀ m, Idx.nth l (na + k) ≤ m → u k m = c k) :
+    (S.map fun i => (IE S i : ℚ) * ∏ k : Fin d, u k (Idx.nth i (na + k))).sum = ∏ k : Fin d, c k := by
+  let u' : ℕ → ℕ → ℚ := fun k n => if k < na then 1 else u (k - na) n
+  have hsplit : ∀ i : Idx, ∏ k : Fin (na + d), u' k (Idx.nth i k) = ∏ k : Fin d, u k (Idx.nth i (na + k)) := by
+    intro i
+    rw [Fin.prod_univ_eq_prod_range (fun k => u' k (Idx.nth i k)) (na + d), Finset.prod_range_add,
+      Fin.prod_univ_eq_prod_range (fun k => u k (Idx.nth i (na + k))) d]
+    have h1 : ∏ k ∈ range na, u' k (Idx.nth i k) = 1 := by
+      apply Finset.prod_eq_one
+      intro k hk
+      simp only [u', if_pos (mem_range.mp hk)]
+    rw [h1, one_mul]
+    apply Finset.prod_congr rfl
+    intro k _
+    simp only [u']
+    rw [if_neg (by omega), Nat.add_sub_cancel_left]
+  have hce := combination_exact_list (d := na + d) (R := ℚ) hnd hlen hdown u' l hl (by
+    intro k hk m hm
+    simp only [u']
+    by_cases hka : k < na
+    · simp [hka]
+    · rw [if_neg hka, if_neg hka]
+      have hk' : k - na < d := by omega
+      have hm' : Idx.nth l (na + (k - na)) ≤ m := by rw [show na + (k - na) = k by omega]; exact hm
+      rw [hstable (k - na) hk' m hm', hstable (k - na) hk' (Idx.nth l k) (by rw [show na + (k - na) = k by omega])])
+  simp only [hsplit] at hce
+  rw [hce]
+  apply Finset.prod_congr rfl
+  intro k _
+  exact hstable k k.2 _ le_rfl
+
+/-- product-form data of the unit pulse at node multi-index `p` -/
+def pulse (p : ℕ → ℕ) : ℕ → ℕ → Q := fun k a => if a = p k then 1 else 0
+
+/-- level operator of the pulse: the `p k`-th basis polynomial of level `n` if that node belongs to the level, else 0 -/
+noncomputable def uPulse (nodes : ℕ → List Q) (gs : ℕ → ℕ) (p : ℕ → ℕ) (x : List Q) (k n : ℕ) : Q :=
+  if p k < ((nodes k).take (gs n)).length then
+    eval (x.getD k 0) (Lagrange.basis (range ((nodes k).take (gs n)).length) (nodeFn ((nodes k).take (gs n))) (p k))
+  else 0
+
+theorem term_value_pulse {na d : ℕ} {nodes : ℕ → List Q} {gs : ℕ → ℕ} {st : Idx → LState} {S : List Idx}
+    (hN : Nested na d nodes gs st S) (p : ℕ → ℕ) (x : List Q) (hx : x.length = d) (i : Idx) (hi : i ∈ S) :
+    predictT 0 (st i) (prodRows (pulse p) ((st i).grids.map List.length)) x =
+      [∏ k : Fin d, uPulse nodes gs p x k (Idx.nth i (na + k))] := by
+  rw [predictT_productg (st i) x (pulse p) (by rw [hN.dims i hi, hx]) (fun k hk => (hN.good i hi k (by omega)).pos), hx,
+    list_prod_range_fin]
+  congr 1
+  apply Finset.prod_congr rfl
+  intro k _
+  have hg := hN.good i hi k k.2
+  obtain ⟨c, hc, hw⟩ := hg.wt
+  unfold interp1g uPulse pulse
+  rw [← hN.grid i hi k k.2]
+  simp only [mul_ite, mul_one, mul_zero]
+  rw [Finset.sum_ite_eq']
+  by_cases hp : p k < ((st i).grids.getD k []).length
+  · rw [if_pos (mem_range.mpr hp), if_pos hp, basis_eq_eval _ _ hg.nodup hg.len c hc hw _ _ hp]
+  · rw [if_neg (fun h => hp (mem_range.mp h)), if_neg hp]
+
+/-- **the surrogate of a unit pulse is 1 at that training point and 0 at every other training point of the sparse grid**:
+    `z` = the grid point with node numbers `a` of some member `l` of `S`, pulse at node numbers `p` -/
+theorem misc_interpolates_pulse {na d : ℕ} (S : List Idx) (hnd : S.Nodup) (hlen : ∀ s ∈ S, s.length = na + d)
+    (hdown : ∀ s ∈ S, ∀ j, Idx.le j s = true → j ∈ S)
+    (nodes : ℕ → List Q) (gs : ℕ → ℕ) (hgs : Monotone gs) (hnodes : ∀ k, k < d → (nodes k).Nodup)
+    (st : Idx → LState) (hN : Nested na d nodes gs st S) (p a : ℕ → ℕ) (l : Idx) (hl : l ∈ S)
+    (ha : ∀ k, k < d → a k < gs (Idx.nth l (na + k)))
+    (hlong : ∀ k, k < d → gs (Idx.nth l (na + k)) ≤ (nodes k).length)
+    (x : List Q) (hx : x.length = d) (hxa : ∀ k, k < d → x.getD k 0 = (nodes k).getD (a k) 0) :
+    (miscSum (S.map fun i => (IE S i, predictT 0 (st i) (prodRows (pulse p) ((st i).grids.map List.length)) x))).getD 0 0 =
+      ∏ k : Fin d, (if p k = a k then (1 : ℚ) else 0) := by
+  rw [miscSum_single]
+  · rw [List.map_map]
+    have hlhs : (S.map ((fun t : Int × List Q => (t.1 : Q) * t.2.getD 0 0) ∘
+        fun i => (IE S i, predictT 0 (st i) (prodRows (pulse p) ((st i).grids.map List.length)) x))) =
+        S.map fun i => (IE S i : ℚ) * ∏ k : Fin d, uPulse nodes gs p x k (Idx.nth i (na + k)) := by
+      apply List.map_congr_left
+      intro i hi
+      simp only [Function.comp]
+      rw [term_value_pulse hN p x hx i hi]
+      simp
+    rw [hlhs]
+    apply comb_offset S hnd hlen hdown (uPulse nodes gs p x) (fun k => if p k = a k then 1 else 0) l hl
+    intro k hk m hm
+    unfold uPulse
+    have h1 : gs (Idx.nth l (na + k)) ≤ gs m := hgs hm
+    have hL : a k < ((nodes k).take (gs m)).length := by
+      rw [List.length_take]; have := ha k hk; have := hlong k hk; omega
+    have hxk : x.getD k 0 = nodeFn ((nodes k).take (gs m)) (a k) := by
+      rw [hxa k hk]
+      unfold nodeFn
+      simp only [List.getD_eq_getElem?_getD]
+      rw [List.getElem?_take_of_lt (by rw [List.length_take] at hL; omega)]
+    have hndk := (hnodes k hk).sublist (List.take_sublist (gs m) (nodes k))
+    by_cases hp : p k < ((nodes k).take (gs m)).length
+    · rw [if_pos hp, hxk]
+      by_cases hpa : p k = a k
+      · rw [if_pos hpa, hpa]; exact eval_basis_self (injOn_nodeFn hndk) (mem_range.mpr hL)
+      · rw [if_neg hpa]; exact eval_basis_of_ne hpa (mem_range.mpr hL)
+    · rw [if_neg hp, if_neg]
+      intro e; rw [e] at hp; exact hp hL
+  · intro t ht
+    rw [List.mem_map] at ht
+    obtain ⟨i, hi, rfl⟩ := ht
+    rw [term_value_pulse hN p x hx i hi]
+    rfl
+
 end Amisc.SE
